@@ -95,6 +95,14 @@ def coef_arg(coefs):
     return polyfun(coefs)
 
 
+HYP = 9001   # index of the harness-side catalogue entry (not assigned by the specification)
+HYP_ENTRY = {"cls": "HyperbolicRTransform", "p": [[1, 2], [1, 50]], "inv": False, "dom": "half"}
+
+
+def _entry(catalogue, dom, idx):
+    return HYP_ENTRY if idx == HYP else catalogue[dom][idx - 1]
+
+
 def build_transform(entry):
     import grid.rtransform as rt
     cls = getattr(rt, entry["cls"])
@@ -130,7 +138,7 @@ def solve_one(job, catalogue, trees):
     fx = polyfun(p["f"])
     tf = None
     if job["tf"] is not None:
-        tf = build_transform(catalogue[p["dom"]][job["tf"] - 1])
+        tf = build_transform(_entry(catalogue, p["dom"], job["tf"]))
     t0 = time.time()
     out = {"err": None, "msg": None, "t": 0.0}
     try:
@@ -252,6 +260,14 @@ def make_jobs(probs, tier, rng):
                     j.update(pattern=s)
                     j["key"] = (p["id"], "bvp:" + ",".join(f"{a}{b}" for a, b, _ in p["bvp"][s]), tf)
                 jobs.append(j)
+        # HyperbolicRTransform is outside the specification's catalogue (its methods refuse arrays of N points unless
+        # b (N - 1) < 1, so a BVP mesh decides whether it is admissible); the initial-value solver evaluates it point
+        # by point, so there it is a coordinate transformation like the others: one extra solve per half-line problem
+        if p["dom"] == "half" and len(p["pts"]) <= 40 and float(fr(p["x1"])) < 40 and float(fr(p["x0"])) >= 0:
+            s = p["id"] % 3
+            j = {"prob": p, "type": "ivp", "tf": HYP, "method": IVP_METHODS[s], "dir": p["ivpdir"][s]}
+            j["key"] = (p["id"], f"ivp:{IVP_METHODS[s]}:{p['ivpdir'][s]}", HYP)
+            jobs.append(j)
     return jobs
 
 
@@ -358,7 +374,9 @@ def run(tier: str, _select=None) -> int:
         fast = [j for j in jobs if j["type"] == "bvp" or j["method"] == "DOP853"]
         rk = [j for j in jobs if j["type"] == "ivp" and j["method"] == "RK45"]
         radau = [j for j in jobs if j["type"] == "ivp" and j["method"] == "Radau"]
+        hyp = [j for j in jobs if j["tf"] == HYP and j["method"] != "Radau"]
         jobs = fast[:240] + rk[:45] + radau[:15]
+        jobs += [j for j in hyp if j not in jobs][:16]
     else:
         # RK45 / Radau at 1e-10 are slow (0.3 / 2 s per solve): thorough runs every DOP853 and BVP
         # solve and a seeded third / tenth of the RK45 / Radau ones (the calibration covered all)
@@ -383,7 +401,7 @@ def run(tier: str, _select=None) -> int:
         out = results[key]
         j = bykey[key]
         p = j["prob"]
-        tfe = None if j["tf"] is None else catalogue[p["dom"]][j["tf"] - 1]
+        tfe = None if j["tf"] is None else _entry(catalogue, p["dom"], j["tf"])
         tname = "direct" if tfe is None else tf_name(tfe)
         cls = "direct" if tfe is None else ("Inverse:" if tfe["inv"] else "") + tfe["cls"]
         rep.evaluated(1, key)
@@ -468,7 +486,7 @@ def replay(path: str) -> int:
         for j in jobs:
             if j["key"][0] != pid or j["key"][1] != solve:
                 continue
-            tfe = None if j["tf"] is None else catalogue[j["prob"]["dom"]][j["tf"] - 1]
+            tfe = None if j["tf"] is None else _entry(catalogue, j["prob"]["dom"], j["tf"])
             if ("direct" if tfe is None else tf_name(tfe)) == tname:
                 out.append(j)
         return out
